@@ -93,6 +93,7 @@ structure FDecl where
   get : Bool := false       -- `shoot: get` (accessor mode only)
   set : Bool := false
   newMark : Bool := false
+  joined : Bool := false    -- a non-first name of a multi-name declaration `A, B int` (shares type and tag)
   deriving DecidableEq, Repr, Inhabited
 
 inductive Tree where
@@ -150,12 +151,13 @@ def ptrPaths (pre : List String) : Tree → List (List String)
   | .embed n p body rest =>
     (if p then [pre ++ [n]] else []) ++ ptrPaths (pre ++ [n]) body ++ ptrPaths pre rest
 
-/-- `tagMap[Pascal(name)] = Pascal(tag)` for the top-level fields -/
+/-- `tagMap[Pascal(name)] = Pascal(tag)` for the top-level fields — keyed by the FIRST name of a
+    declaration only (`name := f.Names[0].Name`, fields.go:84) -/
 def tagMap : Tree → List (String × String)
   | .nil => []
   | .field f rest =>
     (match f.tag with
-     | .name t => [(pascalS f.name, pascalS t)]
+     | .name t => if f.joined then [] else [(pascalS f.name, pascalS t)]
      | _ => []) ++ tagMap rest
   | .embed _ _ _ rest => tagMap rest
 
